@@ -127,7 +127,7 @@ func (in *instrumenter) rewriteList(list []ast.Stmt) []ast.Stmt {
 		if g, ok := s.(*ast.GoStmt); ok {
 			// go f(x)  ->  vrtGo(func() { f(x) }): the new goroutine gets a logical thread id
 			body := &ast.BlockStmt{List: []ast.Stmt{&ast.ExprStmt{X: g.Call}}}
-			out = append(out, &ast.ExprStmt{X: &ast.CallExpr{Fun: ast.NewIdent("vrtGo"), Args: []ast.Expr{&ast.FuncLit{Type: &ast.FuncType{Params: &ast.FieldList{}}, Body: body}}}})
+			out = append(out, &ast.ExprStmt{X: &ast.CallExpr{Fun: ast.NewIdent("vrtGoLib"), Args: []ast.Expr{&ast.FuncLit{Type: &ast.FuncType{Params: &ast.FieldList{}}, Body: body}}}})
 			in.count++
 			continue
 		}
